@@ -307,6 +307,7 @@ inline ChildResult run_in_child(Engine& e, const Plan& p, int timeout_s = 60) {
     pid_t pid = fork();
     if (pid == 0) {
         close(out[0]); close(err[0]); dup2(err[1], 2); close(err[1]);
+        { sigset_t ss; sigemptyset(&ss); sigaddset(&ss, SIGALRM); sigprocmask(SIG_UNBLOCK, &ss, 0); signal(SIGALRM, SIG_DFL); }   // the watchdog must work whatever the caller's signal state is
         alarm(timeout_s);
         RunStats st; Trace tr;
         Verdict v = guarded_execute(e, p, st, tr);
@@ -419,6 +420,7 @@ inline int run_batch(Engine& e, const BatchOptions& o) {
             close(p[0]);
             for (int k = 0; k < J; ++k) if (fds[k] >= 0) close(fds[k]);
             int devnull = open("/dev/null", O_WRONLY); if (devnull >= 0) { dup2(devnull, 2); }
+            { sigset_t ss; sigemptyset(&ss); sigaddset(&ss, SIGALRM); sigprocmask(SIG_UNBLOCK, &ss, 0); signal(SIGALRM, SIG_DFL); }
             int nviol = 0;
             for (int64_t i = next_idx[w]; i < (int64_t)o.runs; i += J) {
                 if (wall_now() - t0 > o.budget_s) break;
